@@ -86,6 +86,8 @@ def catalogue():
     C["mul"] = (lambda E: [E.x * E.y], True)
     C["div"] = (lambda E: [E.x / E.z], True)
     C["pow"] = (lambda E: [E.x ** E.prm], True)
+    # both operands over exactly the same dimensions in the same order (nothing to cast, nothing to reorder), and 0-dim ones
+    C["same_dims_operands"] = (lambda E: [E.tx + E.ty, E.tx - E.ty, E.tx * E.ty, E.tx / E.ty, E.tx ** E.ty, E.tx.minimum(E.ty), E.tx.maximum(E.ty), E.s ** E.s, E.s * E.s], True)
     C["minimum"] = (lambda E: [E.x.minimum(E.z)], True)
     C["maximum"] = (lambda E: [E.x.maximum(E.y)], True)
     C["add_same_dims"] = (lambda E: [E.x + E.x, E.x * 1, E.x + 0, E.x / 1, E.x - 0], True)
@@ -432,5 +434,12 @@ def bad_stock_calls():
     B["lifetime_prm_same_letters_other_length"] = lambda E: FixedLifetime(dims=E.tx.dims, mean=StockArray(dims=other_time(E, [2000, 2001]), values=np.full((2, 2), 2.5)))
     B["lifetime_prm_same_letters_other_items"] = lambda E: NormalLifetime(dims=E.tx.dims, mean=2.0, std=StockArray(dims=DimensionSet(dim_list=[E.D["t"], Dimension(name="Alpha", letter="a", items=["a1"])]), values=np.full((3, 1), 0.5)))
     B["set_prms_same_letters_other_length"] = lambda E: FixedLifetime(dims=E.tx.dims, mean=2.0).set_prms(mean=StockArray(dims=other_time(E, [2000, 2001]), values=np.full((2, 2), 2.5)))
+    # items that only coincide with the stock's after a conversion to the declared item type: text years, mid-year points
+    def cast_alike(E, items):
+        return DimensionSet(dim_list=[Dimension(name="Time", letter="t", items=items), E.D["a"]])
+
+    B["stock_array_items_equal_as_text"] = lambda E: SimpleFlowDrivenStock(dims=E.tx.dims, inflow=StockArray(dims=cast_alike(E, ["2000", "2001", "2003"])))
+    B["stock_array_items_equal_after_truncation"] = lambda E: SimpleFlowDrivenStock(dims=E.tx.dims, outflow=StockArray(dims=cast_alike(E, [2000.5, 2001.5, 2003.5])))
+    B["dsm_lifetime_items_equal_after_truncation"] = lambda E: InflowDrivenDSM(dims=E.tx.dims, lifetime_model=FixedLifetime(dims=cast_alike(E, [2000.5, 2001.5, 2003.5]), mean=2.0))
     B["lifetime_bad_inflow_at"] = lambda E: NormalLifetime(dims=E.tx.dims, inflow_at="centre", mean=2.0, std=1.0)
     return B
